@@ -52,7 +52,12 @@ type apos struct {
 }
 
 // avals: a slice of values (cells hold the value at path "").
-type avals struct{ cells []*aobj }
+// spare: cells of the same backing array beyond the slice's length (what x[:n] leaves behind): an append
+// overwrites them in place, as it does in the language, so that slices sharing the array see it
+type avals struct {
+	cells []*aobj
+	spare []*aobj
+}
 
 // amap: a reference to a map keyed by the normal form of abstract values.
 type amap struct{ m *amapData }
@@ -967,7 +972,15 @@ func (e *absEnv) instrStr(fr *absFrame, in ssa.Instruction) bool {
 			if lo < 0 || hi > int64(len(s.cells)) || lo > hi {
 				e.abort("slice bounds out of range in the abstract slice")
 			}
-			fr.regs[t] = avals{s.cells[lo:hi]}
+			{
+				var spare []*aobj
+				if t.Max == nil {
+					spare = append(append(spare, s.cells[hi:]...), s.spare...)
+				} else if mx, ok := e.val(fr, t.Max).(aint); ok && int64(mx) >= hi && int64(mx) <= int64(len(s.cells)) {
+					spare = append(spare, s.cells[hi:mx]...)
+				}
+				fr.regs[t] = avals{cells: s.cells[lo:hi], spare: spare}
+			}
 			return true
 		case aptr:
 			// slicing an array (a composite literal): the elements become cells
@@ -1260,7 +1273,7 @@ func (e *absEnv) stdCall(fr *absFrame, name string, args []aval, depth int) (ava
 				cells = append(cells, sl.cells...)
 			}
 			cells = append(cells, newVals([]aval{args[2]}, types.Typ[types.String]).cells...)
-			m.m.vals[k] = avals{cells}
+			m.m.vals[k] = avals{cells: cells}
 			m.m.keys[k] = args[1]
 			return atuple{}, true
 		case strings.HasSuffix(base, "Del"):
